@@ -360,9 +360,26 @@ def rule_retry(ctx, scope='off', rule='A2.retry'):
     return
 
 
+def _falsy_edge(test, lab, v):
+    """Taking branch `lab` of `test` implies that read result `v` is None/empty (nothing was consumed)."""
+    t = norm(test)
+    if lab == 'true':
+        if t in ('%s is None' % v, 'not %s' % v):
+            return True
+        if isinstance(test, ast.BoolOp) and isinstance(test.op, ast.And) and any(norm(x) in ('not %s' % v, '%s is None' % v) for x in test.values):
+            return True
+    if lab == 'false' and t == v:
+        return True
+    return False
+
+
 def _position_neutral(ctx, f, cfg, y, ynode, reads):
-    """Every stream read that can precede the suspension is compensated before it: nothing consumed (None/empty),
-    `seek(-len(v), SEEK_CUR)` on every path, or `if v: seek(-N, SEEK_CUR)` for a read of constant size N."""
+    """Every stream read that can precede the suspension is compensated before it.
+
+    For each read `v = stream.read(n)`: there must be no path from the read to the yield (within the current trip, i.e.
+    not through another suspension) on which v may hold octets and no compensating seek was executed.  Compensations:
+    `stream.seek(-len(v), os.SEEK_CUR)`, or `stream.seek(-N, os.SEEK_CUR)` for a read of constant size N (guarded by
+    `if v:`).  Branches that imply v is None/empty consumed nothing."""
     rvars = []
     for r in reads:
         st = _stmt_of(r, f.node)
@@ -372,55 +389,53 @@ def _position_neutral(ctx, f, cfg, y, ynode, reads):
             return False, 'the result of `%s` is not bound to a variable' % norm(r)
     if not rvars:
         return False, 'no stream read found'
-    # transitive control dependences of the yield
-    deps = []
-    seen = set()
-    work = [ynode]
-    while work:
-        n = work.pop()
-        for b, lab in cfg.control_deps(n):
-            if (b, lab) not in seen:
-                seen.add((b, lab))
-                deps.append((b, lab))
-                work.append(b)
-    reasons = []
-    # at every other suspension the position has been restored already: only reads of the current trip matter
     others = set()
     for n in cfg.stmt_nodes():
         if n is not ynode and n.kind == 'stmt' and any(isinstance(x, ast.Yield) for x in ast.walk(n.ast)):
             others.add(n)
+    reasons = []
     for var, r, rnode in rvars:
-        if ynode not in cfg.reachable(rnode, avoid=others):
-            continue   # this read cannot precede the suspension
         stream = r.func.value.id
         if r.func.attr == 'peek':
             reasons.append('%s: peek does not advance' % var)
             continue
-        if any(b.kind == 'test' and lab == 'true' and norm(b.ast.test) in ('%s is None' % var, 'not %s' % var) for b, lab in deps):
-            reasons.append('%s: None/empty, nothing consumed' % var)
-            continue
-        want = '%s.seek(-len(%s), os.SEEK_CUR)' % (stream, var)
-        seeks = [n for n in cfg.stmt_nodes() if n.kind == 'stmt' and norm(n.ast) == want]
-        if any(ynode not in cfg.reachable(rnode, avoid=others | {s_}) for s_ in seeks):
-            reasons.append('%s: rewound by `%s`' % (var, want))
-            continue
-        # constant-size probe: `if v: stream.seek(-N, os.SEEK_CUR)`
-        size = r.args[0] if r.args else None
-        N = None
-        if isinstance(size, ast.Constant) and isinstance(size.value, int) and size.value > 0:
-            N = size.value
-        ok = False
-        if N is not None:
-            for t in cfg.stmt_nodes():
-                if t.kind == 'test' and norm(t.ast.test) == var and not t.ast.orelse and len(t.ast.body) == 1 and \
-                        norm(t.ast.body[0]) == '%s.seek(-%d, os.SEEK_CUR)' % (stream, N) and \
-                        ynode not in cfg.reachable(rnode, avoid=others | {t}):
-                    ok = True
-        if ok:
-            reasons.append('%s: %d-octet probe un-read when it returned data' % (var, N))
-            continue
-        return False, ('octets consumed by `%s = %s` may still be missing from the stream when the generator suspends: '
-                       'no `%s` and no guarded un-read lies on every path to the yield' % (var, norm(r), want))
+        comp = set()
+        for n in cfg.stmt_nodes():
+            if n.kind != 'stmt':
+                continue
+            t = norm(n.ast)
+            if t == '%s.seek(-len(%s), os.SEEK_CUR)' % (stream, var):
+                comp.add(n)
+            size = r.args[0] if r.args else None
+            if isinstance(size, ast.Constant) and isinstance(size.value, int) and size.value > 0 and \
+                    t == '%s.seek(-%d, os.SEEK_CUR)' % (stream, size.value):
+                # only when guarded by `if v:` (the probe returned data)
+                par = getattr(n.ast, 'parent', None)
+                if isinstance(par, ast.If) and norm(par.test) == var and n.ast in par.body:
+                    comp.add(n)
+        # search a harmful path: rnode ->* ynode avoiding other suspensions, compensations and "v is empty" branches
+        seen = set()
+        stack = [rnode]
+        harmful = False
+        while stack and not harmful:
+            n = stack.pop()
+            for s_, lab in n.succs:
+                if lab == 'exc':
+                    continue
+                if n.kind in ('test', 'while') and lab in ('true', 'false') and _falsy_edge(n.ast.test, lab, var):
+                    continue
+                if s_ is ynode:
+                    harmful = True
+                    break
+                if s_ in seen or s_ in others or s_ in comp or s_ is rnode:
+                    continue
+                seen.add(s_)
+                stack.append(s_)
+        if harmful:
+            return False, ('octets consumed by `%s = %s` may still be missing from the stream when the generator suspends: a path '
+                           'from the read to this yield passes no `%s.seek(-len(%s), os.SEEK_CUR)` (or guarded un-read of the constant '
+                           'probe size) and no branch that implies the read returned nothing' % (var, norm(r), stream, var))
+        reasons.append('%s: compensated or empty on every path' % var)
     return True, '; '.join(reasons)
 
 
